@@ -27,7 +27,7 @@ inductive QSel where
 
 inductive OpKind where
   | query | mutation | subscription
-  deriving Repr, BEq, DecidableEq, Inhabited
+  deriving Repr, DecidableEq, Inhabited
 
 structure VarDef where
   name : String
